@@ -74,7 +74,7 @@ impl Prop for C08 {
                 sizes,
                 key_mod,
                 create_fault: None,
-                order: (amount % 6) as u8,
+                order: (amount % 12) as u8,
             });
         let faulty = (hooked.clone(), 0u16..24).prop_map(|(mut c, k)| {
             c.create_fault = Some(k);
@@ -97,7 +97,7 @@ impl Prop for C08 {
                 sizes,
                 key_mod,
                 create_fault: None,
-                order: (amount % 6) as u8,
+                order: (amount % 12) as u8,
             });
         // NOT registered: the fault-and-continue scenario is outside C08's quantifier (see DESIGN 12, false alarms);
         // kept for experiments with VERIF_C08_FAULTS=1
@@ -152,8 +152,16 @@ impl Prop for C08 {
         if let Some(k) = case.create_fault {
             ctl.borrow_mut().fault = Some(ioinstr::FaultPlan { kind: ioinstr::Kind::Create, k: k as u64, err: ioinstr::ErrKind::Other });
         }
-        let mut b = grenad::Sorter::builder(MF::plain(MergeKind::Last)).chunk_creator(Creator { ctl: ctl.clone() });
-        conf.apply(&mut b);
+        // `chunk_creator` is one more setter that commutes with the others: for order >= 6 it is called last
+        let b = if case.order >= 6 {
+            let mut b0 = grenad::Sorter::builder(MF::plain(MergeKind::Last));
+            conf.apply(&mut b0);
+            b0.chunk_creator(Creator { ctl: ctl.clone() })
+        } else {
+            let mut b = grenad::Sorter::builder(MF::plain(MergeKind::Last)).chunk_creator(Creator { ctl: ctl.clone() });
+            conf.apply(&mut b);
+            b
+        };
         let mut s = b.build();
         let public = matches!(case.threshold, Threshold::Public(_));
         let max_entry = t / 4;
